@@ -200,7 +200,8 @@ impl Report {
     /// `monitor` and `case` make the witness replayable.
     pub fn violation(&mut self, sig: &str, monitor: &str, case: u64, detail: Value) {
         self.n_violations += 1;
-        if self.violations.len() < 40 {
+        let same = self.violations.iter().filter(|v| v["sig"] == sig).count();
+        if self.violations.len() < 80 && same < 4 {
             self.violations.push(json!({
                 "sig": sig, "monitor": monitor, "case": case, "detail": detail
             }));
